@@ -12,12 +12,16 @@
 //!   and leave the store unchanged.
 //! * `record`: seeded random multi-author histories on the real code, one NDJSON event per spec
 //!   action, validated by Trace_OpLog.tla.
+use std::cell::RefCell;
 use std::collections::{BTreeMap, BTreeSet, VecDeque};
+use std::future::Future;
+use std::pin::Pin;
+use std::task::{Context, Poll};
 
 use p2panda_core::cbor::decode_cbor;
 use p2panda_core::{Body, Hash, Header, Operation, Signature, SigningKey, VerifyingKey};
-use p2panda_store::SqliteStore;
 use p2panda_store::logs::LogStore;
+use p2panda_store::{SqliteStore, SqliteStoreBuilder, Transaction};
 use p2panda_store::operations::OperationStore;
 use p2panda_stream::Processor;
 use p2panda_stream::ingest::{IngestError, ingest_operation};
@@ -323,6 +327,21 @@ pub struct Impl {
     prune: Prune,
 }
 
+thread_local! {
+    /// database files to remove at exit
+    static FILES: RefCell<Vec<String>> = const { RefCell::new(Vec::new()) };
+}
+
+fn remove_files() {
+    FILES.with(|f| {
+        for path in f.borrow_mut().drain(..) {
+            for suffix in ["", "-wal", "-shm", "-journal"] {
+                let _ = std::fs::remove_file(format!("{path}{suffix}"));
+            }
+        }
+    });
+}
+
 #[derive(Clone, Copy, Debug, PartialEq, Eq)]
 pub enum Res {
     Inserted,
@@ -344,6 +363,75 @@ impl Impl {
     pub async fn new() -> Impl {
         let store = SqliteStore::temporary().await;
         Impl { prune: LogPrune::new(store.clone()), store }
+    }
+
+    /// A FILE-backed store with the default connection pool (the in-memory store has a single
+    /// connection, which serialises plain pool reads behind an open transaction and would hide a
+    /// read that was moved out of the transaction). The file lives in tmpfs and is removed at once
+    /// (SQLite keeps working on the open handles), so nothing outlives the process.
+    pub async fn new_file() -> Impl {
+        let dir = if std::path::Path::new("/dev/shm").is_dir() { "/dev/shm".to_string() } else { ".".to_string() };
+        let path = format!("{dir}/vh-oplog-{}-{}.sqlite", std::process::id(), Rng::new(std::process::id() as u64 ^ 0xF11E).next_u64());
+        let _ = std::fs::remove_file(&path);
+        let store = SqliteStoreBuilder::new().database_url(&format!("sqlite://{path}")).build().await.expect("file store");
+        FILES.with(|f| f.borrow_mut().push(path));
+        Impl { prune: LogPrune::new(store.clone()), store }
+    }
+
+    /// REAL concurrent `ingest_operation` calls on the one store. The harness plays "another writer":
+    /// it holds the store's transaction permit while the calls are started one after the other (each
+    /// is polled until it is parked), so they queue up at `store.begin()` in the given order; then
+    /// the permit is released and all calls are driven to completion.
+    ///
+    /// Returns each call's verdict and the order in which the calls completed. A call returns in the
+    /// same poll in which it dropped the permit, so on this single-threaded runtime the completion
+    /// order of the calls that took a transaction IS the serial order of their transactions.
+    pub async fn ingest_concurrently(&self, calls: &[(Op, String)]) -> Result<(Vec<Res>, Vec<usize>), String> {
+        let permit = self.store.begin().await.map_err(|e| e.to_string())?;
+        let order: RefCell<Vec<usize>> = RefCell::new(Vec::new());
+        let mut futs: Vec<Option<Pin<Box<dyn Future<Output = Result<Res, String>> + '_>>>> = Vec::new();
+        let mut results: Vec<Option<Result<Res, String>>> = vec![None; calls.len()];
+        let waker = futures_util::task::noop_waker();
+        let mut cx = Context::from_waker(&waker);
+        for (i, (op, log)) in calls.iter().enumerate() {
+            let order = &order;
+            futs.push(Some(Box::pin(async move {
+                let r = self.ingest(op, log).await;
+                order.borrow_mut().push(i);
+                r
+            })));
+            // park it: whatever the call does before begin() (validation; in a broken version also
+            // reads) gets wall time to finish, then it must sit in the permit queue
+            for round in 0..4 {
+                for (j, slot) in futs.iter_mut().enumerate() {
+                    if let Some(f) = slot {
+                        if let Poll::Ready(r) = f.as_mut().poll(&mut cx) {
+                            results[j] = Some(r);
+                            *slot = None;
+                        }
+                    }
+                }
+                if futs[i].is_none() {
+                    break;
+                }
+                if round < 3 {
+                    std::thread::sleep(std::time::Duration::from_micros(200));
+                }
+            }
+        }
+        self.store.rollback(permit).await.map_err(|e| e.to_string())?;
+        for (j, slot) in futs.iter_mut().enumerate() {
+            if let Some(f) = slot.take() {
+                // (awaited with the task's real waker; tokio / sqlx re-register it on this poll)
+                results[j] = Some(f.await);
+            }
+        }
+        drop(futs);
+        let mut out = Vec::new();
+        for r in results {
+            out.push(r.expect("every call returned")?);
+        }
+        Ok((out, order.into_inner()))
     }
 
     /// Empties the tables ingest writes to (one in-memory store is reused for many behaviours:
@@ -578,6 +666,9 @@ struct Pending {
     info: Info,
     cls: String,
     log: String,
+    /// recorder: the Submit event, written right before the call's Ingest event (the order of the
+    /// Submit events in the trace is the serial order of the calls)
+    submit_ev: Option<Value>,
 }
 
 fn expected_store(step: &Value) -> BTreeSet<String> {
@@ -585,6 +676,7 @@ fn expected_store(step: &Value) -> BTreeSet<String> {
 }
 
 struct Expand {
+    concurrent: bool,
     top_max: Option<u32>,
     every: usize,
     flips: usize,
@@ -605,6 +697,7 @@ fn replay(args: &Args) {
     );
     let rt = tokio::runtime::Builder::new_current_thread().enable_all().build().expect("runtime");
     let mut expand = Expand {
+        concurrent: args.extra.get("concurrent").map(|v| v == "1").unwrap_or(false),
         top_max: args.extra.get("top_max").and_then(|v| v.parse().ok()),
         every: args.extra_usize("expand_every", 0),
         flips: args.extra_usize("flips", 200),
@@ -616,7 +709,7 @@ fn replay(args: &Args) {
     for (bi, b) in behaviours.iter().enumerate() {
         out.eval();
         if imp.is_none() {
-            imp = Some(rt.block_on(Impl::new()));
+            imp = Some(if expand.concurrent { rt.block_on(Impl::new_file()) } else { rt.block_on(Impl::new()) });
         }
         // `bin/check Cxx --replay <case>` of an expansion finding: the case wraps the behaviour;
         // run it with the expansion at every honest ingest step
@@ -643,6 +736,8 @@ fn replay(args: &Args) {
             }
         }
     }
+    drop(imp);
+    remove_files();
     require_counters(&out, args);
     out.write(args);
 }
@@ -681,6 +776,7 @@ async fn replay_one(imp: &Impl, b: &Value, bi: usize, out: &mut Outcome, expand:
     let mut prune_q: VecDeque<(Pending, Res)> = VecDeque::new();
     let mut cur = imp.project(&world, &authors, &logs).await?;
     let mut nontrivial = false;
+    let mut batch_done_until = 0usize;
 
     for (si, st) in steps.iter().enumerate() {
         match st["act"].as_str() {
@@ -712,7 +808,81 @@ async fn replay_one(imp: &Impl, b: &Value, bi: usize, out: &mut Outcome, expand:
                     world.register(&op, info.clone());
                 }
                 out.count(&format!("class:{cls}"));
-                in_q.push_back(Pending { op, log: info.l.clone(), info, cls });
+                in_q.push_back(Pending { op, log: info.l.clone(), info, cls, submit_ev: None });
+            }
+            // (the remaining Ingest steps of a batch that was already executed)
+            Some("Ingest") if expand.concurrent && si < batch_done_until => {}
+            Some("Ingest") if expand.concurrent => {
+                // a batch: all queued calls run as REAL concurrent ingest_operation futures
+                let k = in_q.len();
+                let batch: Vec<Pending> = in_q.drain(..).collect();
+                let ing_steps: Vec<&Value> = steps[si..].iter().take(k).collect();
+                if k == 0 || ing_steps.len() != k || ing_steps.iter().any(|s| s["act"] != "Ingest") {
+                    eprintln!("concurrent replay needs batch-shaped behaviours (Submit^k Ingest^k Prune^k)");
+                    std::process::exit(2);
+                }
+                batch_done_until = si + k;
+                let calls: Vec<(Op, String)> = batch.iter().map(|p| (p.op.clone(), p.log.clone())).collect();
+                let (results, order) = imp.ingest_concurrently(&calls).await?;
+                let after = imp.project(&world, &authors, &logs).await?;
+                out.count(if k > 1 { "batch:concurrent" } else { "batch:single" });
+                // calls that took a transaction, in the order they were queued vs. the order they ran
+                let ran: Vec<usize> = order.iter().copied().filter(|i| batch[*i].info.wf).collect();
+                let forced = ran.windows(2).all(|w| w[0] < w[1]);
+                if !forced {
+                    // the calls did not take the permit in queue order (a call was not parked yet when
+                    // the next one was started): the spec's serial outcome is for another order - no verdict
+                    out.count("batch:order-not-forced");
+                    return Ok(());
+                }
+                let same_log = batch.iter().enumerate().any(|(i, p)| batch.iter().skip(i + 1).any(|q| q.info.a == p.info.a && q.info.l == p.info.l && q.op.hash != p.op.hash));
+                if k > 1 && same_log {
+                    out.count("batch:same-log-overlap");
+                }
+                let mut findings: Vec<Finding> = Vec::new();
+                if cur.difference(&after).next().is_some() {
+                    findings.push(("C04", "ingest-deleted-entries".into(), format!("a batch of ingests removed {:?}", cur.difference(&after).map(|r| r.key.clone()).collect::<Vec<_>>())));
+                }
+                // judge call by call in serial order: the store before call i is the store before the
+                // batch plus the rows the earlier calls inserted
+                let mut before_i = cur.clone();
+                for (i, p) in batch.iter().enumerate() {
+                    let res = results[i];
+                    out.count(&format!("ingest:{}", res.name()));
+                    let mut after_i = before_i.clone();
+                    if res == Res::Inserted {
+                        for row in after.iter().filter(|r| r.hash == p.op.hash) {
+                            after_i.insert(row.clone());
+                        }
+                    }
+                    // (has_operation is observed after the whole batch: it must agree with the rows)
+                    let has = after_i.iter().any(|r| r.hash == p.op.hash);
+                    if imp.has(&p.op.hash).await? != after.iter().any(|r| r.hash == p.op.hash) {
+                        findings.push(("C01", "has-operation-disagrees-with-log".into(), format!("has_operation({}) disagrees with the stored logs", p.info.key)));
+                    }
+                    findings.extend(judge.after_ingest(&p.info, &p.cls, &p.op, res, &before_i, &after_i, has));
+                    let want = ing_steps[i]["res"].as_str().expect("res");
+                    if want != res.name() {
+                        findings.push(("*", "ingest-result-differs-from-spec".into(), format!("concurrent ingest of {} returned {}, the specification (serial, queue order) says {}", p.info.key, res.name(), want)));
+                    }
+                    if res != Res::Inserted {
+                        nontrivial = true;
+                    }
+                    before_i = after_i;
+                }
+                let want_store = expected_store(ing_steps[k - 1]);
+                if keys_of(&after) != want_store {
+                    findings.push(("*", "store-differs-from-spec".into(), format!("after {} concurrent ingests: stored {:?}, the specification says {:?}", k, keys_of(&after), want_store)));
+                }
+                let bad = !findings.is_empty();
+                report(out, findings, b, si);
+                cur = after;
+                for (p, r) in batch.into_iter().zip(results) {
+                    prune_q.push_back((p, r));
+                }
+                if bad {
+                    return Ok(());
+                }
             }
             Some("Ingest") => {
                 let p = in_q.pop_front().expect("spec ingests only what was submitted");
@@ -1033,7 +1203,7 @@ fn record(args: &Args) {
         out.eval();
         let seed = rng.next_u64();
         if imp.is_none() {
-            imp = Some(rt.block_on(Impl::new()));
+            imp = Some(rt.block_on(Impl::new_file()));
         }
         let r = catch(|| rt.block_on(async {
             let imp = imp.as_ref().unwrap();
@@ -1054,6 +1224,8 @@ fn record(args: &Args) {
     }
     let (events, runs) = trace.finish();
     out.set_trace(events, runs);
+    drop(imp);
+    remove_files();
     require_counters(&out, args);
     out.write(args);
 }
@@ -1183,10 +1355,59 @@ async fn record_one(imp: &Impl, run: usize, seed: u64, trace: &mut TraceWriter, 
                 (base, base_info, "Honest".to_string())
             };
             out.count(&format!("class:{cls}"));
-            trace.event(json!({"ev": "Submit", "cls": cls, "item": info_json(&info)}));
-            in_q.push_back(Pending { op, log: info.l.clone(), info, cls });
+            let submit_ev = json!({"ev": "Submit", "cls": cls, "item": info_json(&info)});
+            in_q.push_back(Pending { op, log: info.l.clone(), info, cls, submit_ev: Some(submit_ev) });
+        } else if in_q.len() >= 2 && (choice == 1 || prune_q.is_empty()) && rng.chance(2, 3) {
+            // several callers at once: REAL concurrent ingest_operation futures (same log included),
+            // queued behind a permit the harness holds; events at the linearisation point = in the
+            // order the calls completed (= order of their transactions)
+            let batch: Vec<Pending> = in_q.drain(..).collect();
+            let calls: Vec<(Op, String)> = batch.iter().map(|p| (p.op.clone(), p.log.clone())).collect();
+            let (results, order) = imp.ingest_concurrently(&calls).await?;
+            let after = imp.project(&world, &authors, &logs).await?;
+            out.count("batch:concurrent");
+            if batch.iter().enumerate().any(|(i, p)| batch.iter().skip(i + 1).any(|q| q.info.a == p.info.a && q.info.l == p.info.l && q.op.hash != p.op.hash)) {
+                out.count("batch:same-log-overlap");
+            }
+            if cur.difference(&after).next().is_some() {
+                viol(out, "C04", "ingest-deleted-entries", "a batch of ingests removed rows".into(), case.clone());
+            }
+            let mut before_i = cur.clone();
+            for (n, i) in order.iter().enumerate() {
+                let (p, res) = (&batch[*i], results[*i]);
+                let mut after_i = before_i.clone();
+                if res == Res::Inserted {
+                    for row in after.iter().filter(|r| r.hash == p.op.hash) {
+                        after_i.insert(row.clone());
+                    }
+                }
+                let has = after_i.iter().any(|r| r.hash == p.op.hash);
+                if imp.has(&p.op.hash).await? != after.iter().any(|r| r.hash == p.op.hash) {
+                    viol(out, "C01", "has-operation-disagrees-with-log", format!("has_operation({}) disagrees with the stored logs", p.info.key), case.clone());
+                }
+                out.count(&format!("ingest:{}", res.name()));
+                if res != Res::Inserted {
+                    out.mark_distinct(format!("{run}:{}:{}", p.info.key, res.name()));
+                }
+                for (prop, sig, detail) in judge.after_ingest(&p.info, &p.cls, &p.op, res, &before_i, &after_i, has) {
+                    viol(out, prop, &sig, detail, case.clone());
+                }
+                trace.event(p.submit_ev.clone().expect("recorder item"));
+                let log = if n + 1 == order.len() { log_scalars(&after, &p.info.a, &p.info.l) } else { json!({"count": -1, "height": -1, "low": -1, "total": -1}) };
+                trace.event(json!({"ev": "Ingest", "res": res.name(), "a": p.info.a, "l": p.info.l, "log": log}));
+                before_i = after_i;
+            }
+            if after.len() as i64 != imp.total_rows().await? {
+                viol(out, "C01", "stray-rows", "operations_v1 holds rows that are not reachable through the known logs".into(), case.clone());
+            }
+            cur = after;
+            let mut slots: Vec<Option<Pending>> = batch.into_iter().map(Some).collect();
+            for i in order {
+                prune_q.push_back((slots[i].take().unwrap(), results[i]));
+            }
         } else if !in_q.is_empty() && (choice == 1 || prune_q.is_empty()) {
             let p = in_q.pop_front().unwrap();
+            trace.event(p.submit_ev.clone().expect("recorder item"));
             let res = imp.ingest(&p.op, &p.log).await?;
             let after = imp.project(&world, &authors, &logs).await?;
             let has = imp.has(&p.op.hash).await?;
